@@ -5,9 +5,9 @@ open Dmio
 
 let errno_name = function
   | ENOENT -> "enoent" | ENOTDIR -> "enotdir" | EISDIR -> "eisdir" | EEXIST -> "eexist"
-  | ENOTEMPTY -> "enotempty" | ENAMETOOLONG -> "enametoolong" | EINVAL -> "einval"
+  | ENOTEMPTY -> "enotempty" | ENAMETOOLONG -> "enametoolong" | EINVAL -> "einval" | EXDEV -> "exdev"
   | EIO -> "eio" | ENOSPC -> "enospc" | EACCES -> "eacces" | E404 -> "e404"
-  | EBADLINK -> "ebadlink" | EEMPTYKEY -> "eemptykey" | EOTHER -> "eother"
+  | EBADLINK -> "ebadlink" | EUSED -> "eused" | EEMPTYKEY -> "eemptykey" | EOTHER -> "eother"
 
 let obs_tok = function
   | OUnit -> "-" | OOk -> "ok" | OErr e -> "e:" ^ errno_name e | OBytes c -> "b:" ^ hex_of_bytes c
@@ -28,6 +28,9 @@ let parse_op (t : string) : op option =
   | ["r"; k] -> Some (OGetStream (bytes_of_hex k))
   | ["k"; k] -> Some (OPeek (bytes_of_hex k))
   | ["h"; k] -> Some (OHas (bytes_of_hex k))
+  | ["o"; _] -> Some OOpen
+  | ["w"; sid; h] -> Some (OWrite (nat_of_int (int_of_string sid), nat_of_int (int_of_string h)))
+  | ["c"; sid; k] -> Some (OCommit (nat_of_int (int_of_string sid), bytes_of_hex k))
   | _ -> None
 
 let bytes_of_string (s : string) : n list =
@@ -125,6 +128,20 @@ let oracle (store : string) (cfg : fscfg) (ops : op list) (impl : string list) :
            if !live then begin
              let (s', exp) = spec_step proj full !s o in
              match o with
+             | OOpen | OWrite _ ->
+               if tok = obs_tok exp then s := s' else add_class fails "stream_op_failed"
+             | OCommit (sid, k) ->
+               if tok = "ok" then (s := s'; put_keys := k :: !put_keys)
+               else begin
+                 (* the stream is spent whatever happened *)
+                 (match List.nth_opt !s.s_str (int_of_nat sid) with
+                  | Some (c, _) -> s := { (!s) with s_str = upd (!s).s_str sid (c, true) }
+                  | None -> ());
+                 if store <> "fs" then add_class fails "mem_put_refused"
+                 else if tok = "panic" || tok = "badh" then add_class fails "fs_put_panic"
+                 else if k = [] then ()   (* commit("") is the abort *)
+                 else ()
+               end
              | ONew _ | OMut _ -> s := s'
              | OPut (k, _) | OPutStream (k, _) | OPutVec (k, _) ->
                if tok = "ok" then (s := s'; put_keys := k :: !put_keys)
@@ -164,7 +181,7 @@ let oracle (store : string) (cfg : fscfg) (ops : op list) (impl : string list) :
                  (match o with
                   | OGet _ | OPeek _ when String.length tok >= 2 && String.sub tok 0 2 = "b:" ->
                     let c = bytes_of_hex (String.sub tok 2 (String.length tok - 2)) in
-                    s := { s_map = !s.s_map; s_hnd = !s.s_hnd @ [(c, (match o with OPeek _ -> true | _ -> false))] }
+                    s := { (!s) with s_hnd = (!s).s_hnd @ [(c, (match o with OPeek _ -> true | _ -> false))] }
                   | _ -> ())
                end
            end) ops
